@@ -309,13 +309,15 @@ impl NetInner {
     }
 
     /// Forged packet: delivered at `now`, after all real packets of that instant. Consumes no fate.
-    pub fn inject(&mut self, from: Addr, to: Addr, msg: Message) {
+    /// `authentic_looking`: the packet carries the sender's real magic, so the receiver treats it as
+    /// a sign of life (recorded as a delivery instant for the timing predictor, nothing else).
+    pub fn inject(&mut self, from: Addr, to: Addr, msg: Message, authentic_looking: bool) {
         self.forged_seq += 1;
         self.forged += 1;
         let seq = self.forged_seq;
         self.inbox.entry(to).or_default().push(Packet {
             at: now_ms(),
-            key: (255, seq, 0),
+            key: (255, seq, authentic_looking as u8),
             from,
             msg,
         });
@@ -345,6 +347,15 @@ impl NetInner {
         due.sort_by_key(|p| (p.at, p.key));
         let mut out = Vec::with_capacity(due.len());
         for p in due {
+            if p.key.0 == 255 && p.key.2 == 1 {
+                let l = self.links.entry((p.from, me)).or_default();
+                if l.ledger.delivery_ms.last() != Some(&now) {
+                    l.ledger.delivery_ms.push(now);
+                }
+                if l.ledger.delivery_calls.last() != Some(&call) {
+                    l.ledger.delivery_calls.push(call);
+                }
+            }
             if p.key.0 != 255 {
                 let mm = to_mirror(&p.msg);
                 let class = class_of(&mm) as usize;
